@@ -57,8 +57,11 @@ def gen_expr(rnd, depth, scope, allow_shadow):
         return f'[{sub()}, {sub()}]'
     if k == 7:
         return f'({sub()} | {sub()})'
+    # (a bare inline-Python operand of a constructor form is read as an option value — the documented exception of the
+    #  grammar language — so such operands are put into a sequence)
+    wrap_py = lambda x: f'[{x}]' if x.startswith('`') else x
     if k == 8:
-        return f'Opt({sub()})'
+        return f'Opt({wrap_py(sub())})'
     if k == 9:
         return f'({sub()} >> {sub()})'
     if k == 10:
@@ -66,12 +69,12 @@ def gen_expr(rnd, depth, scope, allow_shadow):
     if k == 11:
         return f'({rnd.choice(["D", "K", "N", chr(34) + "a" + chr(34), "C"])})*'
     if k == 12:
-        return f'Expect({sub()})'
+        return f'Expect({wrap_py(sub())})'
     if k == 13:
         return f'({rnd.choice(["D", "K", "W"])} // ",")'
     if k == 14:
         return '((D*) |> `tuple`)'
-    return f'ExpectNot({sub()})'
+    return f'ExpectNot({wrap_py(sub())})'
 
 
 FIXED = [
@@ -204,7 +207,7 @@ def run(R):
     nshadow = nabandoned = 0
     for i in range(0, len(jobs), 1500):
         recs = gramrun.run_grammars(jobs[i:i + 1500])
-        gramrun.compare(R, recs, 'env', mechanism_of)
+        gramrun.compare(R, recs, 'env', mechanism_of, reject_is_violation=True)
         for r in recs:
             if 'ex' not in r:
                 continue
